@@ -479,7 +479,7 @@ class Body:
                 e = ('index', e, ('const', 'usize', pe['cidx'], str(pe['cidx'])))
             else:
                 e = ('proj?', e)
-            e = simplify(e)
+            e = lower(self.facts, simplify(e))
         e = simplify(e)
         if e[0] == 'field' and len(e) == 4 and p['proj'] and isinstance(p['proj'][-1], dict) and 'field' in p['proj'][-1]:
             e = e + (p['ty'],)        # type of the projected field (used by the interval evaluator)
@@ -610,8 +610,8 @@ class Body:
             path = c['path'] if c else ('<indirect:%s>' % x['fty'])
             args = [self.expr(a, depth, seen) for a in x['args']]
             if not c and x.get('fop'):
-                return simplify(('callptr', self.expr(x['fop'], depth, seen), args, x))
-            return simplify(('call', path, args, x))
+                return lower(self.facts, simplify(('callptr', self.expr(x['fop'], depth, seen), args, x)))
+            return lower(self.facts, simplify(('call', path, args, x)))
         rv = x['rv']
         ops = x['ops']
         if rv == 'use':
@@ -718,11 +718,154 @@ def simplify(e):
         return e[1][1]
     if e[0] == 'ref' and e[1][0] == 'deref':
         return e[1][1]
-    if e[0] == 'field' and e[1][0] == 'aggr' and e[1][1] == 'tuple' and e[2].startswith('#'):
+    if e[0] == 'field' and e[1][0] == 'aggr' and (e[1][1] == 'tuple' or e[1][1].startswith('closure:')) and e[2].startswith('#'):
         i = int(e[2][1:])
         if i < len(e[1][2]):
             return e[1][2][i]
     return e
+
+
+# ---------------------------------------------------------------------------------------------
+# Lowering of Option / Result combinators and the `?` operator into the same gamma DAG an explicit `match` gives.
+# Purpose: behaviour-preserving rewrites (match -> `?`, ok_or_else, map, map_or, unwrap_or, or_else, and_then) must not
+# change what the rules see. Every rewrite below is an identity of the std API (one line of reason each).
+BRANCH_RX = re.compile(r'core::ops::(try_trait::)?Try>::branch$')
+COMB = re.compile(r'^core::(option::Option|result::Result)::<.*>::(ok_or_else|ok_or|ok|map|map_or|map_or_else|unwrap_or|unwrap_or_else|or_else|and_then|map_err|or)$')
+
+
+def _is_option_path(path):
+    return 'option::Option' in path
+
+
+def apply_closure(facts, clo, args, _depth=0):
+    """value of calling the function value `clo` (closure aggregate or fn item) on argument expressions; None if unknown"""
+    c = clo
+    while c[0] in ('ref', 'deref'):
+        c = c[1]
+    if c[0] == 'aggr' and c[1].startswith('closure:'):
+        b = facts.bodies.get(c[1][8:])
+        if b is None or b.loops() or len(b.blocks) > 80 or b.argc != len(args) + 1:
+            return None
+        return subst_args(b.ret_expr(), [c] + list(args))
+    if c[0] == 'fnitem':
+        b = inlinable(facts, c[1])
+        if b is not None and b.argc == len(args):
+            return subst_args(b.ret_expr(), list(args))
+    return None
+
+
+def _synth_phi(branches):
+    """branches: [(expr, (discr expr, values))] -> phi node with explicit conditions"""
+    return ('phi', None, [b for b, _ in branches], None, [('cond', c[0], c[1]) for _, c in branches], None, None)
+
+
+def phi_branch_conditions(body, where):
+    """conditions of one phi branch: CFG edge / block (real phi) or an explicit ('cond', discr, values) (lowered combinator)"""
+    if isinstance(where, tuple) and where and where[0] == 'cond':
+        return [(None, where[1], where[2])]
+    return body.branch_conditions(where)
+
+
+def _payload(o, variant):
+    return simplify_field(('field', ('downcast', o, variant), '0', 'core::%s.0' % ('option::Option' if variant in ('Some', 'None') else 'result::Result')))
+
+
+def lower(facts, e):
+    """one rewriting step at the top of e (children are already lowered when this is called from Body.expr)"""
+    k = e[0]
+    if k == 'field' and e[1][0] == 'downcast' and e[2].lstrip('#') == '0':
+        inner = e[1][1]
+        var = e[1][2]
+        src = inner
+        while src[0] in ('ref', 'deref'):
+            src = src[1]
+        if src[0] == 'call' and src[2]:
+            path = src[1]
+            # `x?`: (branch(X) as Continue).0 is the Some / Ok payload of X
+            if BRANCH_RX.search(path) and var == 'Continue':
+                return lower(facts, _payload(src[2][0], 'Some' if _is_option_path(path) else 'Ok'))
+            m = COMB.match(path)
+            if m:
+                name = m.group(2)
+                o = src[2][0]
+                if name in ('ok_or_else', 'ok_or') and var == 'Ok':           # Some(v).ok_or(..) == Ok(v)
+                    return lower(facts, _payload(o, 'Some'))
+                if name == 'ok' and var == 'Some':                             # Ok(v).ok() == Some(v)
+                    return lower(facts, _payload(o, 'Ok'))
+                if name == 'map_err' and var == 'Ok':                          # map_err keeps the Ok payload
+                    return lower(facts, _payload(o, 'Ok'))
+                if name == 'map' and var in ('Some', 'Ok') and len(src[2]) > 1:  # Some(v).map(f) == Some(f(v))
+                    r = apply_closure(facts, src[2][1], [_payload(o, var)])
+                    if r is not None:
+                        return r
+    if k == 'call' and e[2]:
+        m = COMB.match(e[1])
+        if m:
+            name = m.group(2)
+            o = e[2][0]
+            is_opt = _is_option_path(e[1])
+            some, none_v, some_v = ('Some', 0, 1) if is_opt else ('Ok', 1, 0)
+            d = ('discr', o)
+            if name == 'map_or' and len(e[2]) == 3:                             # map_or(d, f): None -> d, Some(v) -> f(v)
+                r = apply_closure(facts, e[2][2], [_payload(o, some)])
+                if r is not None:
+                    return _synth_phi([(e[2][1], (d, frozenset({none_v}))), (r, (d, frozenset({some_v})))])
+            if name == 'map_or_else' and len(e[2]) == 3:
+                r = apply_closure(facts, e[2][2], [_payload(o, some)])
+                dflt = apply_closure(facts, e[2][1], [] if is_opt else [_payload(o, 'Err')])
+                if r is not None and dflt is not None:
+                    return _synth_phi([(dflt, (d, frozenset({none_v}))), (r, (d, frozenset({some_v})))])
+            if name == 'unwrap_or' and len(e[2]) == 2:                          # unwrap_or(d): Some(v) -> v, None -> d
+                return _synth_phi([(_payload(o, some), (d, frozenset({some_v}))), (e[2][1], (d, frozenset({none_v})))])
+            if name == 'unwrap_or_else' and len(e[2]) == 2:
+                dflt = apply_closure(facts, e[2][1], [] if is_opt else [_payload(o, 'Err')])
+                if dflt is not None:
+                    return _synth_phi([(_payload(o, some), (d, frozenset({some_v}))), (dflt, (d, frozenset({none_v})))])
+            if name == 'or_else' and is_opt and len(e[2]) == 2:                 # or_else(f): Some -> self, None -> f()
+                alt = apply_closure(facts, e[2][1], [])
+                if alt is not None:
+                    return _synth_phi([(o, (d, frozenset({1}))), (alt, (d, frozenset({0})))])
+            if name == 'or' and is_opt and len(e[2]) == 2:
+                return _synth_phi([(o, (d, frozenset({1}))), (e[2][1], (d, frozenset({0})))])
+            if name == 'and_then' and is_opt and len(e[2]) == 2:                # and_then(f): None -> None, Some(v) -> f(v)
+                r = apply_closure(facts, e[2][1], [_payload(o, 'Some')])
+                if r is not None:
+                    return _synth_phi([(('aggr', 'core::option::Option::None', [], []), (d, frozenset({0}))), (r, (d, frozenset({1})))])
+    return e
+
+
+def norm_cond(d, v):
+    """rewrite a branch condition on `discr(branch(X))`, `discr(ok_or_else(O, ..))`, `discr(map(O, f))`, `discr(ok(R))`
+    into the equivalent condition on the underlying Option / Result (so `?` and explicit matches give the same conditions)"""
+    for _ in range(6):
+        ds = d
+        if ds[0] != 'discr':
+            return d, v
+        x = ds[1]
+        while x[0] in ('ref', 'deref'):
+            x = x[1]
+        if x[0] != 'call' or not x[2]:
+            return d, v
+        path = x[1]
+        flip = None
+        if BRANCH_RX.search(path):
+            flip = _is_option_path(path)          # Option: Continue(0) <=> Some(1); Result: Continue(0) <=> Ok(0)
+        else:
+            m = COMB.match(path)
+            if not m:
+                return d, v
+            name = m.group(2)
+            if name in ('ok_or_else', 'ok_or', 'ok'):
+                flip = True                        # Ok(0) <=> Some(1)
+            elif name in ('map', 'map_err'):
+                flip = False
+            else:
+                return d, v
+        d = ('discr', x[2][0])
+        if flip:
+            f = lambda s_: frozenset(1 - t if t in (0, 1) else t for t in s_)
+            v = ('else', f(v[1])) if isinstance(v, tuple) else f(v)
+    return d, v
 
 
 def alternatives(body, e, limit=64, _conds=()):
@@ -737,8 +880,8 @@ def alternatives(body, e, limit=64, _conds=()):
         sub = e[6] if len(e) > 6 else None
         for br, bid in zip(e[2], e[4]):
             cs = []
-            for (_, d, v) in b2.branch_conditions(bid):
-                cs.append((subst_args(d, sub) if sub is not None else d, v))
+            for (_, d, v) in phi_branch_conditions(b2, bid):
+                cs.append(norm_cond(subst_args(d, sub) if sub is not None else d, v))
             out += alternatives(body, br, limit, tuple(_conds) + tuple(cs))
             if len(out) > limit:
                 break
@@ -755,7 +898,17 @@ def alternatives(body, e, limit=64, _conds=()):
                 out.append((y, c))
         return out
     if k == 'downcast':
-        return [(simplify_downcast(('downcast', x, e[2])), c) for x, c in alternatives(body, e[1], limit, _conds)]
+        out = []
+        for x, c in alternatives(body, e[1], limit, _conds):
+            xs = x
+            while xs[0] in ('ref', 'deref'):
+                xs = xs[1]
+            # (Adt::Other{..} as Variant) is an infeasible alternative of a merged enum value: the match arm that projects
+            # `Variant` is never taken for a value built as `Other`
+            if xs[0] == 'aggr' and '::' in xs[1] and xs[1].rsplit('::', 1)[1] != str(e[2]) and xs[1].rsplit('::', 1)[0].rsplit('::', 1)[-1] in ('Option', 'Result') :
+                continue
+            out.append((simplify_downcast(('downcast', x, e[2])), c))
+        return out
     if k == 'cast':
         return [(('cast', e[1], e[2], x, e[4] if len(e) > 4 else None), c) for x, c in alternatives(body, e[3], limit, _conds)]
     if k == 'call' and is_transparent(e[1]) and e[2]:
@@ -868,7 +1021,7 @@ def inline_calls(facts, e, depth=2, skip=None, _stack=()):
     if k in ('ref', 'deref', 'discr', 'repeat', 'proj?'):
         return simplify((k, rec(e[1])))
     if k == 'field':
-        return simplify_field(('field', rec(e[1])) + tuple(e[2:]))
+        return lower(facts, simplify_field(('field', rec(e[1])) + tuple(e[2:])))
     if k == 'downcast':
         return ('downcast', rec(e[1]), e[2])
     if k == 'index':
@@ -895,7 +1048,7 @@ def inline_calls(facts, e, depth=2, skip=None, _stack=()):
                 if ret[0] != 'top':
                     body_e = subst_args(ret, args)
                     return inline_calls(facts, body_e, depth - 1, skip, _stack + (path,))
-        return ('call', path, args, e[3])
+        return lower(facts, ('call', path, args, e[3]))
     return e
 
 
